@@ -17,7 +17,7 @@ GUARD = 'TLX_VERIF'
 CLANG = ['clang++-14', '-std=c++17', '-I' + REPO, '-I' + HARNESS, '-D' + GUARD, '-O1', '-ffp-contract=off', '-fno-vectorize',
          '-fno-slp-vectorize', '-fno-unroll-loops', '-S', '-emit-llvm', '-Wno-everything']
 GXX = ['g++', '-std=c++17', '-I' + REPO, '-I' + HARNESS, '-D' + GUARD, '-O1', '-g', '-fsanitize=address,undefined',
-       '-fno-sanitize-recover=undefined', '-fno-lifetime-dse', '-w', '-pthread']
+       '-fno-sanitize-recover=undefined', '-fno-sanitize=alignment', '-fno-lifetime-dse', '-w', '-pthread']
 CBMC_BASE = ['--no-malloc-may-fail', '--unwinding-assertions', '--drop-unused-functions', '--no-signed-overflow-check',
              '--no-undefined-shift-check']
 NOCHECK = ['--no-assertions', '--no-pointer-check', '--no-bounds-check', '--no-div-by-zero-check',
@@ -73,6 +73,17 @@ class Query:
         self.kf_defs = list(kf_defs); self.expect_fail_label = expect_fail_label
         self.unwindset = dict(unwindset or {}); self.native_defs = list(native_defs); self.solver = list(solver)
         self.conc = conc; self.nt = nt; self.rounds = rounds; self.yield_atomics = yield_atomics
+
+
+class SmtQuery:
+    """loop-free property function translated by engine/ll2smt.py and decided by SMT solvers (Int with explicit wrap-around / Real)"""
+    def __init__(self, name, src, function, desc, kind='int', ctype='uint32_t', defs=(), tiers=('quick', 'thorough'), timeout=120, weight=1, kf_defs=(), expect_fail_label=None, assumptions=()):
+        self.name = name; self.src = src; self.function = function; self.desc = desc; self.kind = kind; self.ctype = ctype; self.defs = list(defs)
+        self.tiers = tiers; self.timeout = timeout; self.weight = weight; self.kf_defs = list(kf_defs); self.expect_fail_label = expect_fail_label
+        self.assumptions = list(assumptions); self.smt = True; self.witness = False; self.validate = 0
+
+
+SMT_SOLVERS = [('z3-new', ['z3-new']), ('z3', ['z3']), ('cvc5', ['cvc5', '--nl-ext-tplanes'])]
 
 
 def load_cache():
@@ -229,7 +240,9 @@ class Runner:
             cbmc_calls += 1
             rec['cbmc_calls'] = cbmc_calls
             if rc == -9:
-                rec['verdict'] = 'TIMEOUT'; rec['phase'] = 'tune' if not tuned else 'final'; return None, out
+                # killed: by our own timeout, or by the kernel OOM killer (then well before the deadline)
+                rec['verdict'] = 'TIMEOUT' if time.time() >= deadline - 2 else 'MEMOUT(killed by the OOM killer after %.0f s)' % wall
+                rec['phase'] = 'tune' if not tuned else 'final'; return None, out
             res, st = parse_cbmc(out)
             if 'too many addressed objects' in out and q.objbits < 16:
                 q.objbits += 2; rec['object_bits'] = q.objbits
@@ -338,8 +351,78 @@ class Runner:
             return True, os.path.join(rdir, q.name + '.json')
         return False, os.path.join(rdir, q.name + '.json')
 
+    def run_smt(self, q):
+        rec = dict(query=q.name, harness=q.src, entry=q.function, bounds_text=q.desc, defs=q.defs + q.kf_defs, linked_tlx_sources=[], stubs=[], status='?', backend='ll2smt')
+        t0 = time.time(); d = os.path.join(self.tmp, q.name); os.makedirs(d, exist_ok=True)
+        try:
+            ll = os.path.join(d, 'h.ll'); defs = ['-D' + x for x in q.defs + q.kf_defs]
+            cl = ['-O2' if c == '-O1' else c for c in CLANG if c != '-fno-unroll-loops']   # loop-free after full unrolling; -O2 must precede the -fno-*vectorize flags
+            rc, out, _, _ = sh(cl + defs + [os.path.join(HARNESS, q.src), '-o', ll], timeout=300)
+            if rc != 0: raise RuntimeError('clang failed:\n' + out[-2000:])
+            smt = os.path.join(d, 'q.smt2')
+            rc, out, _, _ = sh([sys.executable, os.path.join(ENGINE, 'll2smt.py'), ll, '--function', q.function, '-o', smt], timeout=120)
+            if rc != 0: raise RuntimeError('ll2smt failed:\n' + out[-2000:])
+            txt = open(smt).read(); gv = [l for l in txt.split('\n') if l.startswith('(get-value')]
+            body = '(set-logic ALL)\n' + '\n'.join(l for l in txt.split('\n') if not l.startswith('(get-value') and not l.startswith(';'))
+            open(smt, 'w').write(body)
+            rec['generated_c_sha'] = hashlib.sha256(body.encode()).hexdigest()[:16]; rec['steps'] = body.count('define-fun'); rec['n_properties'] = 1
+            answers = {}
+            procs = []
+            for nm, cmd in SMT_SOLVERS:
+                procs.append((nm, subprocess.Popen(['timeout', str(q.timeout)] + cmd + [smt], stdout=subprocess.PIPE, stderr=subprocess.STDOUT)))
+            pending = dict(procs)
+            while pending:
+                for nm in list(pending):
+                    p_ = pending[nm]
+                    if p_.poll() is None: continue
+                    o_ = p_.stdout.read().decode('utf-8', 'replace'); del pending[nm]
+                    first = o_.strip().split('\n')[0] if o_.strip() else 'timeout'
+                    answers[nm] = 'error' if '(error' in o_ else (first if first in ('sat', 'unsat', 'unknown') else 'timeout')
+                definite = [a for a in answers.values() if a in ('sat', 'unsat')]
+                if len(definite) >= 2 and len(set(definite)) == 1:      # two solvers agree: do not wait for the slower ones
+                    for nm, p_ in pending.items(): p_.kill(); answers[nm] = 'not waited for'
+                    pending = {}
+                time.sleep(0.2)
+            rec['solver_answers'] = answers; rec['solver_s'] = round(time.time() - t0, 2)
+            if 'sat' in answers.values():
+                sv = [nm for nm, a in answers.items() if a == 'sat'][0]; cmd = dict(SMT_SOLVERS)[sv]
+                open(smt, 'a').write('\n' + (gv[0] if gv else '') + '\n')
+                rc, mo, _, _ = sh(['timeout', str(q.timeout)] + cmd + [smt], timeout=q.timeout + 5)
+                vals = []
+                for mm in re.finditer(r'\(v__\S+ ((?:\(- )?\(?/? ?[-0-9. ]+\)?\)?)\)', mo):
+                    tok = mm.group(1).replace('(', ' ').replace(')', ' ').split()
+                    neg = tok and tok[0] == '-'; tok = [t for t in tok if t != '-']
+                    if tok and tok[0] == '/': v = float(tok[1]) / float(tok[2])
+                    else: v = float(tok[0]) if q.kind == 'real' else int(tok[0].split('.')[0])
+                    vals.append(-v if neg else v)
+                rec['cbmc_failed'] = [dict(pid=q.function, desc=q.function + ' == false')]
+                exe = os.path.join(d, 'native')
+                kdef = ['-DVERIF_KIND_INT', '-DVERIF_T=' + q.ctype] if q.kind == 'int' else []
+                rc, out, _, _ = sh(GXX + defs + kdef + ['-DVERIF_NATIVE', '-DVERIF_FN=' + q.function, os.path.join(HARNESS, q.src), '-o', exe], timeout=300)
+                if rc != 0: raise RuntimeError('native build failed:\n' + out[-2000:])
+                args = [repr(v) if q.kind == 'real' else str(int(v) & 0xFFFFFFFFFFFFFFFF) for v in vals]
+                rc, out, _, _ = sh([exe] + args, timeout=60)
+                rdir = os.path.join(VERIF, 'replays', self.prop); os.makedirs(rdir, exist_ok=True); rp = os.path.join(rdir, q.name + '.json')
+                json.dump(dict(property=self.prop, query=q.name, harness=q.src, entry=q.function, defs=q.defs, link=[], failing_assertion=q.function + ' == false', inputs=args, smt=True,
+                               how='g++ -std=c++17 -I/repo -DVERIF_NATIVE -DVERIF_FN=%s %s harness/%s && ./a.out %s' % (q.function, ' '.join(kdef), q.src, ' '.join(args))), open(rp, 'w'), indent=1)
+                rec['replay'] = rp; rec['replay_native'] = self.last_line(out)[:200]
+                rec['status'] = 'VIOLATION' if 'ASSERT-FAIL' in out else 'INCONCLUSIVE'
+                if rec['status'] == 'INCONCLUSIVE': rec['verdict'] = 'COUNTEREXAMPLE-NOT-REPRODUCED (model %s)' % args
+            elif 'unsat' in answers.values() and 'error' not in answers.values():
+                rec['status'] = 'HOLDS'; rec['vccs_remaining'] = 1; rec['variables'] = body.count('declare-fun'); rec['vccs'] = 1
+            else:
+                rec['status'] = 'INCONCLUSIVE'; rec['verdict'] = 'SMT solvers: %s' % answers
+            return rec
+        except Exception as e:
+            rec['status'] = 'INCONCLUSIVE'; rec['verdict'] = 'EXCEPTION'; rec['error_tail'] = str(e)[-2000:]; return rec
+        finally:
+            rec['wall_s'] = round(time.time() - t0, 2)
+            if not self.keep: shutil.rmtree(d, ignore_errors=True)
+            log('  [%s] %-38s %-12s %6.1fs  %s' % (self.prop, q.name, rec['status'], rec['wall_s'], rec.get('solver_answers', rec.get('verdict', ''))))
+
     # ------------------------------------------------------------------ one query
     def run_query(self, q):
+        if getattr(q, 'smt', False): return self.run_smt(q)
         rec = dict(query=q.name, harness=q.src, entry=q.entry, bounds_text=q.desc, defs=q.defs + q.kf_defs, linked_tlx_sources=q.link,
                    stubs=q.stubs, status='?')
         t0 = time.time()
